@@ -5,15 +5,16 @@ A difference is reported as a failure of the property at site `torch.<function>`
 
 MIRROR = {
     'C01': ['acq', 'ipow', 'ps0', 'acq_mat', 'acq_grid', 'ipow_product', 'Pauli.__matmul__', 'PauliPolynomial.__matmul__',
-            'PauliPolynomial.__matmul__(no terms)'],
+            'PauliPolynomial.__matmul__(no terms)', 'PauliPolynomial arithmetic (mixed operands)'],
     'C02': ['clifford_rotate', 'clifford_rotate_signless', 'PauliList.rotate_by', 'PauliList.rotate_by(mask)', 'clifford_rotation_map',
             'PauliPolynomial.rotate_by', 'clifford_rotation_gate(qubits=)'],
     'C03': ['pauli_combine', 'pauli_transform', 'PauliList.transform_by', 'PauliList.transform_by(mask)', 'CliffordMap.embed',
             'clifford_rotation_map', 'clifford_rotation_gate(qubits=)'],
     'C04': ['CliffordMap.compose', 'CliffordMap.inverse', 'PauliList.transform_by'],
     'C07': ['stabilizer_expect', 'vectorizable_stabilizer_expect', 'StabilizerState.expect(PauliList)',
-            'StabilizerState.expect(StabilizerState)', 'StabilizerState.expect(PauliPolynomial)', 'StabilizerState.expect(Pauli)'],
-    'C08': ['z2rank', 'StabilizerState.entropy'],
+            'StabilizerState.expect(StabilizerState)', 'StabilizerState.expect(PauliPolynomial)', 'StabilizerState.expect(Pauli)',
+            'vectorizable_expct(PauliList)', 'vectorizable_expct(Pauli)', 'vectorizable_expct(PauliPolynomial)'],
+    'C08': ['z2rank', 'StabilizerState.entropy', 'clifford_rotation_gate(qubits=)', 'CliffordGate.forward'],
     'C09': ['CliffordCircuit.forward', 'CliffordCircuit.forward(compiled)', 'CliffordGate.forward', 'clifford_rotation_gate', 'clifford_rotation_gate(qubits=)',
             'CliffordCircuit.copy.forward', 'CliffordLayer.copy(compiled).forward'],
     'C10': ['CliffordCircuit.forward', 'CliffordCircuit.backward', 'CliffordCircuit.backward(compiled)', 'CliffordGate.backward',
@@ -24,7 +25,8 @@ MIRROR = {
             'PauliPolynomial.__rmul__', 'PauliPolynomial.reduce', 'PauliPolynomial.reduce(tol)', 'Pauli.__matmul__', 'PauliPolynomial arithmetic (mixed operands)', 'PauliPolynomial.trace',
             'PauliPolynomial.reduce leaves its receiver unchanged'],
     'C17': ['StabilizerState.copy', 'CliffordCircuit.copy.forward', 'CliffordCircuit.copy.backward', 'CliffordLayer.copy(compiled).forward',
-            'CliffordLayer.copy(compiled).backward', 'PauliPolynomial.reduce leaves its receiver unchanged', 'diagonalize(StabilizerState)'],
+            'CliffordLayer.copy(compiled).backward', 'PauliPolynomial.reduce leaves its receiver unchanged', 'diagonalize(StabilizerState)',
+            'Pauli.copy (taken from a list that is rewritten afterwards)', 'CliffordCircuit.copy (extended afterwards)'],
     'C18': ['front', 'condense', 'pauli_is_onsite', 'pauli_diagonalize1', 'pauli_diagonalize2', 'diagonalize(Pauli)', 'diagonalize(StabilizerState)'],
     'C20': ['pauli()', 'repr', 'pauli_tokenize', 'PauliList.__getitem__', 'PauliList.__rmul__', 'PauliList.__truediv__', 'PauliList.__neg__',
             'repr(PauliList)', 'PauliList.tokenize', 'pauli(repr(P))', 'paulis(repr lines)'],
